@@ -162,7 +162,10 @@ PROPS["C12"] = dict(
     shards=lambda tier, seed: sharded("c12", _n(tier, 4, 8), _n(tier, 300, 1200))
     + [dict(bin="c12", args=["--only", "race"], timeout=300, name="c12-race")]
     + sharded("c12", _n(tier, 3, 6), 600, extra=["--only", "e2e"], name="c12-e2e")
-    + sharded("c12", 3, 300, extra=["--only", "stall"], name="c12-stall"),
+    + sharded("c12", 3, 300, extra=["--only", "stall"], name="c12-stall")
+    + sharded("c12", _n(tier, 2, 4), 600, extra=["--only", "contend"], name="c12-contend")
+    + ([dict(bin="c12", flavour="tsan", args=["--only", "contend", "--shard", "%d/4" % i], timeout=1500, name="c12-tsan-contend-%d" % i) for i in range(4)]
+       + [dict(bin="c12", flavour="tsan", args=["--only", "race"], timeout=1500, name="c12-tsan-race")] if tier == "thorough" else []),
     min_evaluations={"quick": 10000, "thorough": 100000},
 )
 
